@@ -19,6 +19,7 @@ Umeyama), purity of all arguments.
 """
 from __future__ import annotations
 
+import itertools
 import math
 import random
 import warnings
@@ -975,9 +976,18 @@ def build_traj(case):
         # degenerate position geometry (D43 class): random orientations stay, positions are put on a line / two points / one point
         unit = 2.0 ** round(math.log2(max(ts, 1e-6)))                      # dyadic scale: the exact kinds stay exact in float32 too
         c0 = np.array([rnd.randint(-8, 8) * 0.25 for _ in range(3)]) * unit
-        if geom == "line-rounded":
+        perp = 0.0
+        if geom in ("line-rounded", "near-line"):
             dvec = R.rand_unit(rnd) * ts
             sk = np.array([k_ * 0.37 + rnd.uniform(0, 0.2) for k_ in range(M)])
+            if geom == "near-line":      # class 36: NOT collinear — off the line by `dev` of the extent (between round-off and a loose tolerance)
+                ax = dvec / np.linalg.norm(dvec)
+                pv = []
+                for _ in range(M):
+                    w_ = R.rand_unit(rnd)
+                    w_ = w_ - ax * float(w_ @ ax)
+                    pv.append(w_ / np.linalg.norm(w_) * rnd.uniform(0.3, 1.0) * rnd.choice([-1, 1]))
+                perp = np.array(pv) * case.get("dev", 1e-4) * float(sk.max()) * ts
         else:
             dvec = np.array(rnd.choice([[1, 0, 0], [0, -1, 0], [1, 2, -2], [3, -1, 2], [0, 1, 1]]), dtype=np.float64) * unit * 0.5
             if geom == "line":
@@ -989,7 +999,7 @@ def build_traj(case):
                 sk[0], sk[1] = 0.0, 1.0
             else:  # "one"
                 sk = np.zeros(M)
-        full[:, :3] = c0 + sk[:, None] * dvec
+        full[:, :3] = c0 + sk[:, None] * dvec + perp
     t0, dt = case["t0"], case["dt"]
     diff = case["diff"]
     st = [t0]
@@ -1392,6 +1402,10 @@ def _check_traj(ctx: Ctx, case, mb: MB) -> None:
         idres = run_metric(A.ape, B["rs"], B["rp"], B["rs"], B["rp"], dtype, **{**kw, "offset": 0.0})
         zv = stat_vals(idres)
         ztol = 4 * err_tol(case["etype"], 3 * float(np.abs(B["rp"][:, :3]).max()) + 1e-300) * (1e3 if svd_mode else 1) + unit_slack * (180 / math.pi if case["etype"] == "degree" else 1)
+        if svd_mode and case.get("geom") == "near-line":       # ill-conditioned, NOT degenerate: rounding is amplified by 1/cond, nothing else is allowed
+            Did = R.umeyama(B["rp"][:, :3], B["rp"][:, :3], False)[3]
+            ztol = ztol * max(1.0, 1e-2 * float(Did[0]) / max(float(Did[1]), 1e-300))
+            ctx.count("traj.near-line.identical")
         worst = max(abs(v) for kx, v in zip(STAT_KEYS, zv) if kx != "SSE" and not math.isnan(v))
         if not worst <= ztol:
             ctx.fail(pub(case) | {"clause": "identical"}, f"ape-identical: identical trajectories give non-zero statistics (max |stat| {worst:.3e} > {ztol:.3e}) for etype={case['etype']} mode={mode}",
@@ -1405,7 +1419,8 @@ def _check_traj(ctx: Ctx, case, mb: MB) -> None:
     col = svd_mode and (collinear_exact(B["ep"][ie][:, :3], EPS[dtype]) or collinear_exact(B["rp"][ir][:, :3], EPS[dtype]))
     if col:
         ctx.count("traj.collinear")
-    if mode != "none" and (not svd_mode or cond > 1e-2 or col):
+    near = svd_mode and case.get("geom") == "near-line" and cond > 1e-11
+    if mode != "none" and (not svd_mode or cond > 1e-2 or col or near):
         with_scale = with_scale_m
         s = math.exp(rnd.uniform(-1.2, 1.2)) if with_scale else 1.0
         G = (R.rand_unit(rnd) * (ts + 1) * rnd.choice([0.1, 1.0, 10.0]), R.rand_quat(rnd))
@@ -1413,7 +1428,7 @@ def _check_traj(ctx: Ctx, case, mb: MB) -> None:
         try:
             r2 = run_metric(A.ape, B["rs"], B["rp"], B["es"], ep2, "float64", **kw)
             ts2 = ts + s * float(np.abs(B["ep"][:, :3]).max()) + float(np.abs(G[0]).max())
-            tau2 = err_tol(case["etype"], ts2) * (1e3 / max(cond, 1e-2) if svd_mode else 16) + unit_slack * (180 / math.pi if case["etype"] == "degree" else 1)
+            tau2 = err_tol(case["etype"], ts2) * (1e3 / max(cond, 1e-11 if near else 1e-2) if svd_mode else 16) + unit_slack * (180 / math.pi if case["etype"] == "degree" else 1)
             bad = stats_close(stat_vals(r2), vals, tau2, n)
             if bad:
                 i = STAT_KEYS.index(bad)
@@ -1570,6 +1585,10 @@ def check_rpe(ctx: Ctx, case, mb: MB, B, Tsvd, cond, ts, rnd) -> None:
         idres = run_metric(A.rpe, B["rs"], B["rp"], B["rs"], B["rp"], dtype, **{**kw, "offset": 0.0})
         zv = stat_vals(idres)
         ztol = 4 * err_tol(rk["etype"], 4 * float(np.abs(B["rp"][:, :3]).max()) + 1e-300) * (1e3 if svd_mode else 1) + unit_slack
+        if svd_mode and case.get("geom") == "near-line":       # ill-conditioned, NOT degenerate: rounding is amplified by 1/cond, nothing else is allowed
+            Did = R.umeyama(B["rp"][:, :3], B["rp"][:, :3], False)[3]
+            ztol = ztol * max(1.0, 1e-2 * float(Did[0]) / max(float(Did[1]), 1e-300))
+            ctx.count("traj.near-line.identical")
         worst = max(abs(v) for kx, v in zip(STAT_KEYS, zv) if kx != "SSE" and not math.isnan(v))
         if not worst <= ztol:
             ctx.fail(pub(case), f"rpe-identical: identical trajectories give non-zero statistics (max |stat| {worst:.3e} > {ztol:.3e}), etype={rk['etype']} mode={mode}")
@@ -1663,6 +1682,13 @@ def corpus_chs():
             (3, 3, [3], 0.5, "float64", "randn"), (3, 3, [3, 3], 0.3, "float32", "randn"), (4, 4, [4], 0.25, "float64", "randn"),
             (7, 1, [7], 0.4, "float64", "randn"), (2, 2, [2, 2], 0.5, "float64", "randn"), (5, 5, [1, 5], 0.2, "float64", "randn")]):
         c.append({**base, "N": N, "D": D, "batch": batch, "interval": iv, "dtype": dt_, "pts": pts, "seed": sd + 100 + i})
+    j = 0
+    for n_ in (2, 3, 4, 5, 7, 10, 13):        # round 5 (class 36): interval = (1/n)(1 +- 1e-14 … 1e-6) — the grid size must follow ceil(fl(1/interval)) exactly
+        for dl in (1e-6, 1e-9, 1e-12, 1e-14):
+            for sg in (-1, 1):
+                c.append({**base, "N": 3 + j % 3, "D": 1 + j % 2, "batch": [], "interval": (1 / n_) * (1 + sg * dl), "dtype": "float64", "pts": "randn",
+                          "seed": sd + 150 + j})
+                j += 1
     return c
 
 
@@ -1687,6 +1713,17 @@ def corpus_bs():
             (4, [1], 0.5, False, "walk", 0.5, 1.0, "float64", False), (5, [1, 1], 0.5, True, "walk", 0.5, 1.0, "float64", False)]):
         c.append({"kind": "bs", "dtype": dt_, "N": N, "batch": batch, "interval": iv, "extrapolate": ex, "gen": gen, "rot": rot,
                   "tscale": ts, "flip": flip, "continuity": 2 if i % 3 == 0 else 0, "seed": sd + 200 + i})
+    j = 0
+    for n_ in (2, 4, 5, 10):                  # round 5 (class 36): intervals nearly 1/n, control poses nearly equal
+        for dl in (1e-9, 1e-13):
+            for sg in (-1, 1):
+                c.append({"kind": "bs", "dtype": "float64", "N": 4 + j % 2, "batch": [], "interval": (1 / n_) * (1 + sg * dl), "extrapolate": bool(j % 2), "gen": "walk",
+                          "rot": 0.4, "tscale": 1.0, "flip": False, "continuity": 0, "seed": sd + 260 + j})
+                j += 1
+    for (gen, rot, ts) in (("walk", 1e-9, 1e-9), ("walk", 1e-7, 1e-6), ("walk", 1e-5, 1e-5), ("twist", 1e-8, 1e-8), ("twist", 1e-6, 1.0), ("walk", 1e-12, 1e-12)):
+        c.append({"kind": "bs", "dtype": "float64", "N": 6, "batch": [], "interval": 0.25, "extrapolate": bool(j % 2), "gen": gen, "rot": rot, "tscale": ts,
+                  "flip": False, "continuity": 0, "seed": sd + 260 + j})
+        j += 1
     return c
 
 
@@ -1752,6 +1789,19 @@ def corpus_traj():
                                         "associate": ["frame", "distance"][(gi // 2) % 2], "delta": [1.0, 2.0, 1.7][gi % 3]}))
                 i += 1
                 gi += 1
+    for dv_i, dev in enumerate((1e-3, 1e-4, 1e-5, 1e-6)):    # round 5 (class 36): nearly collinear positions — NOT D43: every error type must hold
+        for m_i, mode in enumerate(("align", "align+scale")):
+            for e_i, est in enumerate(("identical", "transformed", "noisy")):
+                gi = dv_i * 6 + m_i * 3 + e_i
+                c.append(traj_case(i, M=5 + gi % 6, geom="near-line", dev=dev, mode=mode, est=est, etype=ETYPES[gi % 5], noise=1e-2,
+                                   stamps=["jitter", "same", "none"][gi % 3], tscale=[1.0, 20.0][gi % 2],
+                                   rpe={"mode": ["align", "align+scale"][gi % 2], "etype": ETYPES[(gi + 3) % 5], "all": True}))
+                i += 1
+    for nz_i, nz in enumerate((1e-12, 1e-10, 1e-9, 1e-8, 1e-7, 1e-6, 1e-5)):     # class 36: nearly identical trajectories, every error type
+        for et in ETYPES:
+            c.append(traj_case(i, M=6 + nz_i, est="noisy", noise=nz, etype=et, mode=["none", "origin", "align", "align+scale"][(nz_i + ETYPES.index(et)) % 4],
+                               stamps=["jitter", "same"][nz_i % 2], rpe={"etype": et, "all": True, "mode": ["none", "align"][nz_i % 2]}))
+            i += 1
     for M_ in (3, 4, 7, 8):                                  # kind 16: lengths equal to the translation / quaternion / pose dimensions
         for mode in ("align", "align+scale", "scale+origin", "align+scale+origin"):
             c.append(traj_case(i, M=M_, mode=mode, etype=ETYPES[i % 5], stamps="jitter", rpe={"mode": "align+scale", "all": True}))
@@ -2806,6 +2856,673 @@ def run_pass4(ctx: Ctx, mb: MB):
             pass
 
 
+# ============================================================================= round 5 (classes 29-36)
+
+LIE_DIMS = {"SO3": 4, "SE3": 7, "RxSO3": 5, "Sim3": 8, "so3": 3, "se3": 6, "rxso3": 4, "sim3": 7}
+
+
+def lie_rand(P, g, name, shape, dtype):
+    def rn(k_):
+        return torch.randn(*shape, k_, generator=g, dtype=torch.float64)
+
+    def uq():
+        q = rn(4)
+        return q / q.norm(dim=-1, keepdim=True)
+    data = {"SO3": lambda: uq(), "SE3": lambda: torch.cat([rn(3), uq()], -1), "RxSO3": lambda: torch.cat([uq(), rn(1).abs() + 0.5], -1),
+            "Sim3": lambda: torch.cat([rn(3), uq(), rn(1).abs() + 0.5], -1), "so3": lambda: rn(3) * 0.5, "se3": lambda: rn(6) * 0.5,
+            "rxso3": lambda: rn(4) * 0.5, "sim3": lambda: rn(7) * 0.5}[name]()
+    return P.LieTensor(data.to(dtype), ltype=getattr(P, name + "_type"))
+
+
+def lie_battery(ctx: Ctx, P, g, shapes):
+    """class 32: EVERY public LieTensor operation, forward and backward, on single items / all-1 batches / batches, both dtypes"""
+    for dtype in (torch.float64, torch.float32):
+        for name in GEO_TYPES:
+            group = name[0].isupper()
+            for shape in shapes:
+                X = lie_rand(P, g, name, shape, dtype)
+                a = lie_rand(P, g, name.lower(), shape, dtype) if group else None
+                X2 = lie_rand(P, g, name, shape, dtype)
+                p3 = torch.randn(*shape, 3, generator=g, dtype=torch.float64).to(dtype)
+                p4 = torch.randn(*shape, 4, generator=g, dtype=torch.float64).to(dtype)
+                if group:
+                    ops = {"Log": lambda Z: Z.Log(), "Inv": lambda Z: Z.Inv(), "matrix": lambda Z: Z.matrix(), "rotation": lambda Z: Z.rotation(),
+                           "translation": lambda Z: Z.translation(), "scale": lambda Z: Z.scale(), "Adj": lambda Z: Z.Adj(a), "AdjT": lambda Z: Z.AdjT(a),
+                           "Act3": lambda Z: Z.Act(p3), "Act4": lambda Z: Z.Act(p4), "Mul": lambda Z: Z @ X2, "MulInv": lambda Z: Z.Inv() @ X2,
+                           "Jinvp": lambda Z: Z.Jinvp(a), "Retr": lambda Z: Z.Retr(a), "identity_": lambda Z: Z.clone().identity_()}
+                else:
+                    ops = {"Exp": lambda Z: Z.Exp(), "matrix": lambda Z: Z.matrix(), "Jr": lambda Z: Z.Jr(), "ExpLog": lambda Z: Z.Exp().Log(),
+                           "rotation": lambda Z: Z.rotation(), "ExpAct": lambda Z: Z.Exp().Act(p3), "ExpAdj": lambda Z: Z.Exp().Adj(X2)}
+                for on, op in ops.items():
+                    for grad in (False, True):
+                        try:
+                            with warnings.catch_warnings():
+                                warnings.simplefilter("ignore")
+                                if grad:
+                                    leaf = X.tensor().clone().requires_grad_(True)
+                                    o = op(P.LieTensor(leaf, ltype=X.ltype))
+                                    o = o.tensor() if hasattr(o, "ltype") else o
+                                    o.sum().backward()
+                                else:
+                                    op(X)
+                            ctx.count("interleave.battery-op")
+                        except Exception:
+                            ctx.count("interleave.battery-unsupported")
+
+
+def exact_translation_traj(ks):
+    """poses with identity rotation whose positions are (3k, 4k, 0): |p| = 5k exactly"""
+    return np.array([[3.0 * k_, 4.0 * k_, 0.0, 0.0, 0.0, 0.0, 1.0] for k_ in ks])
+
+
+def admissible_match(s, l, diff, off):
+    """for every stamp of s: the list of ALL nearest indices of l + off (exact ties), or [] when the nearest is not < diff"""
+    l2 = [x + off for x in l]
+    out = []
+    for si in s:
+        d = [abs(si - x) for x in l2]
+        m = min(d)
+        out.append([j for j, dj in enumerate(d) if dj == m] if m < diff else [])
+    return out
+
+
+def run_pass5(ctx: Ctx, mb: MB):
+    import os, time
+    P = pp()
+    A = AR()
+    quick = ctx.quick
+    _t = [time.time()]
+
+    def lap(tag):
+        if os.environ.get("C19_PROF"):
+            print(f"  [prof] pass5 {tag}: {time.time() - _t[0]:.2f}s", flush=True)
+        _t[0] = time.time()
+    g = torch.Generator().manual_seed(CORPUS_SEED + 5)
+    rnd = random.Random(CORPUS_SEED + 55)
+    rnd_s = random.Random(ctx.seed * 7919 + 5)           # a seed-dependent share of the generated tie / band cases
+    lt = lambda t: P.LieTensor(t, ltype=P.SE3_type)
+    ident = [0.0, 0.0, 0.0, 1.0]
+
+    def quiet(f):
+        with warnings.catch_warnings():
+            warnings.simplefilter("ignore")
+            return f()
+    # ------------------------------------------------------------ class 35: ties at selection boundaries — every choice decided
+    # (a) stamp association on half-integer lattices with duplicates: several candidates exactly equidistant
+    n_cases = ctx.pick(60, 400)
+    for ci in range(n_cases):
+        r_ = rnd if ci % 2 == 0 else rnd_s
+        n1, n2 = r_.randint(2, 7), r_.randint(2, 9)
+        s1 = sorted(r_.randint(0, 12) * 0.5 for _ in range(n1))
+        s2 = sorted(r_.randint(0, 12) * 0.5 for _ in range(n2))
+        diff = r_.choice([0.5, 0.75, 1.0, 1.5, 0.25])
+        off = r_.choice([0.0, 0.0, 0.5, -1.0, 0.25])
+        c = {"kind": "ties35", "what": "stamps", "s1": s1, "s2": s2, "diff": diff, "offset": off}
+        ctx.note_case(("pass5", "ties35", "stamps", json_sig(c)), True)
+        ctx.count("ties35.stamps")
+        try:
+            mi = A.matching_time_indices(torch.tensor(s1, dtype=torch.float64), torch.tensor(s2, dtype=torch.float64), diff, off)
+            got = list(zip(mi[0], mi[1]))
+            adm = admissible_match(s1, s2, diff, off)
+            want_i = [i for i, cand in enumerate(adm) if cand]
+            if [p_[0] for p_ in got] != want_i or any(p_[1] not in adm[p_[0]] for p_ in got):
+                ctx.fail(c, f"ties35: matching_time_indices gives {got}; admissible partners (nearest stamp, strictly closer than diff) are "
+                            f"{[(i, adm[i]) for i in want_i]}")
+            flat = [x for p_ in got for x in p_]
+
+            def cbt(rep, flat=flat, c=c):
+                st_, toks = common.parse_reply(rep)
+                if st_ != "ok" or [int(t) for t in toks] != flat:
+                    ctx.disagree("match", c, f"tied stamps: implementation {flat} model (first index on ties) {rep[:60]}")
+            mb.add(f"c19.match {to_wire(diff)} {to_wire(off)} {len(s1)} {wire_list(s1)} {len(s2)} {wire_list(s2)}", cbt)
+        except Exception as e:
+            ctx.fail(c, f"ties35-raises: matching_time_indices raised on tied stamps: {excs(e)}")
+        # end to end: ape must equal the documented error for SOME admissible association (shorter trajectory is matched into the longer)
+        if ci % 2 == 0:
+            s1, s2 = sorted(set(s1)), sorted(set(s2))          # StampedSE3 wants ascending stamps; exact two-sided ties remain
+            c = {"kind": "ties35", "what": "ape on tied stamps", "s1": s1, "s2": s2, "diff": diff, "offset": off}
+            try:
+                rp_ = exact_translation_traj([r_.randint(0, 5) for _ in s1])
+                ep_ = exact_translation_traj([r_.randint(0, 5) for _ in s2])
+                res = quiet(lambda: A.ape(tens(s1), se3t(rp_), tens(s2), se3t(ep_), etype="translation", diff=diff, offset=off))
+                vals = stat_vals(res)
+                if len(s2) > len(s1):
+                    adm2 = admissible_match(s1, s2, diff, off)
+                    combos = [list(zip([i for i, cd in enumerate(adm2) if cd], ch)) for ch in itertools.islice(itertools.product(*[cd for cd in adm2 if cd]), 512)]
+                    pairs_all = [[(i, j) for i, j in cmb] for cmb in combos]
+                else:
+                    adm2 = admissible_match(s2, s1, diff, -off)
+                    combos = [list(zip([i for i, cd in enumerate(adm2) if cd], ch)) for ch in itertools.islice(itertools.product(*[cd for cd in adm2 if cd]), 512)]
+                    pairs_all = [[(j, i) for i, j in cmb] for cmb in combos]
+                ok = False
+                for pr in pairs_all:
+                    if not pr:
+                        continue
+                    want = np_stats(np_rel_errors("translation", rp_[[a_ for a_, _ in pr]], ep_[[b_ for _, b_ in pr]], False))
+                    if stats_close(vals, want, 64 * EPS64 * 30, len(pr)) is None:
+                        ok = True
+                        break
+                ctx.count("ties35.ape")
+                if not ok:
+                    ctx.fail(c | {"rk": [int(p_[0] // 3) for p_ in rp_], "ek": [int(p_[0] // 3) for p_ in ep_]},
+                             f"ties35: ape on tied stamps returns {vals[:4]}…, which is the documented error for NONE of the {len(pairs_all)} admissible associations")
+            except AssertionError:
+                ctx.count("ties35.ape-no-match")
+            except Exception as e:
+                ctx.fail(c, f"ties35-raises: ape raised on tied stamps: {excs(e)}")
+    # (b) distance pairing on integer lattices (zero steps, 3-4-5 steps): exact '>= delta', exact argmin ties, |d - delta| == tol
+    for ci in range(ctx.pick(40, 300)):
+        r_ = rnd if ci % 2 == 0 else rnd_s
+        L = r_.randint(3, 10)
+        pos = [np.zeros(3)]
+        for _ in range(L - 1):
+            st_ = r_.choice([(0, 0, 0), (1, 0, 0), (2, 0, 0), (0, 1, 0), (3, 4, 0), (0, 0, 2), (1, 0, 0), (0, 3, 4)])
+            pos.append(pos[-1] + np.array(st_, dtype=np.float64))
+        lat = np.array([list(p_) + ident for p_ in pos])
+        delta = r_.choice([1.0, 2.0, 3.0, 5.0, 1.5, 2.5, 4.0])
+        rtol = r_.choice([0.0, 0.25, 0.5, 1.0])
+        all_ = r_.random() < 0.6
+        c = {"kind": "ties35", "what": "distance pairing", "positions": [list(map(float, p_)) for p_ in pos], "delta": delta, "rtol": rtol, "all": all_}
+        ctx.note_case(("pass5", "ties35", "pairs", json_sig(c)), True)
+        ctx.count("ties35.pairs")
+        try:
+            gp = quiet(lambda: A.pair_id(A.StampedSE3(None, P.SE3(torch.tensor(lat))), delta, "distance", rtol, all_))
+            got = list(zip(list(gp[0]), list(gp[1])))
+            # admissible choices (exact arithmetic: all distances are small integers)
+            steps = [float(np.linalg.norm(pos[i + 1] - pos[i])) for i in range(L - 1)]
+            dist = [0.0]
+            for s_ in steps:
+                dist.append(dist[-1] + s_)
+            tol = delta * rtol
+            if all_:
+                adm = {}
+                for i in range(L - 1):
+                    dfh = [abs(dist[j] - dist[i] - delta) for j in range(i + 1, L)]
+                    m = min(dfh)
+                    if not m > tol:
+                        adm[i] = [i + 1 + j for j, v in enumerate(dfh) if v == m]
+                if [p_[0] for p_ in got] != sorted(adm) or any(p_[1] not in adm[p_[0]] for p_ in got):
+                    ctx.fail(c, f"ties35: pair_id(distance, all=True) gives {got}; admissible targets (nearest to delta, within tol) are {sorted(adm.items())}")
+            else:
+                want, _ = R.pairs_dist_oracle(lat[:, :3], delta, tol, False)
+                if got != want:
+                    ctx.fail(c, f"ties35: pair_id(distance) gives {got}; accumulating the path until it is >= delta gives {want}")
+            flat = [int(x) for p_ in got for x in p_]
+
+            def cbp(rep, flat=flat, c=c):
+                st_, toks = common.parse_reply(rep)
+                w = [int(t) for t in toks] if st_ == "ok" else None
+                if w != flat:
+                    ctx.disagree("pairs", c, f"tied distances: pair_id gives {flat}, the model (first index on ties) {w}")
+            mb.add(f"c19.pairs 1 {int(delta)} {to_wire(delta)} {to_wire(rtol)} {1 if all_ else 0} {len(lat)} " + wire_list(lat.flatten().tolist()), cbp)
+        except Exception as e:
+            ctx.fail(c, f"ties35-raises: pair_id raised on the lattice: {excs(e)}")
+    # (c) statistics of error lists with ties and even length: the Median is the LOWER median, Max/Min exact
+    for ci in range(ctx.pick(30, 200)):
+        r_ = rnd if ci % 2 == 0 else rnd_s
+        n = r_.choice([2, 2, 3, 4, 4, 5, 6, 6, 8, 9, 10, 12])
+        ks = [r_.randint(0, 6) for _ in range(n)]
+        if ci == 0:
+            ks = [1, 2, 3, 4]
+        if ci == 2:
+            ks = [1, 2, 2, 4, 4, 7]
+        n = len(ks)
+        errs = sorted(5.0 * k_ for k_ in ks)
+        want = np_stats(errs)
+        c = {"kind": "ties35", "what": "median", "k": ks}
+        ctx.note_case(("pass5", "ties35", "median", tuple(ks)), True)
+        ctx.count("ties35.median")
+        try:
+            refp = exact_translation_traj([0] * n)
+            estp = exact_translation_traj(ks)
+            ra = quiet(lambda: A.ape(None, se3t(refp), None, se3t(estp), etype="translation"))
+            cum = np.cumsum([0] + ks)
+            rr = quiet(lambda: A.rpe(None, se3t(exact_translation_traj([0] * (n + 1))), None, se3t(exact_translation_traj(cum)), etype="translation", all=True))
+            for nm, res in (("ape", ra), ("rpe", rr)):
+                v = stat_vals(res)
+                if not (v[0] == want[0] and v[1] == want[1] and v[3] == want[3]):
+                    ctx.fail(c | {"fn": nm}, f"ties35: {nm} over the exact errors {errs}: Max/Min/Median = {v[0]!r}/{v[1]!r}/{v[3]!r}, documented "
+                                             f"{want[0]!r}/{want[1]!r}/{want[3]!r} (Median = lower median of an even-length list)")
+                bad = stats_close(v, want, 64 * EPS64 * 30, n)
+                if bad:
+                    ctx.fail(c | {"fn": nm}, f"ties35: {nm} over the exact errors {errs}: {bad} = {v[STAT_KEYS.index(bad)]!r}, documented {want[STAT_KEYS.index(bad)]!r}")
+                one = quiet(lambda: (A.ape(None, se3t(refp), None, se3t(estp), etype="translation", otype="Median") if nm == "ape" else
+                                     A.rpe(None, se3t(exact_translation_traj([0] * (n + 1))), None, se3t(exact_translation_traj(cum)), etype="translation", all=True, otype="Median")))
+                if float(one) != want[3]:
+                    ctx.fail(c | {"fn": nm}, f"ties35: {nm}(otype='Median') = {float(one)!r}, the lower median of {errs} is {want[3]!r}")
+        except Exception as e:
+            ctx.fail(c, f"ties35-raises: ape/rpe raised on exact errors: {excs(e)}")
+    lap("ties35")
+    # ------------------------------------------------------------ class 36: the band between round-off and a 'helpful' tolerance
+    # (a) stamps differing by 2^-40 … 2^-27 (1e-12 … 7e-9): everything dyadic, so float and exact arithmetic agree on every decision
+    for ci in range(ctx.pick(60, 400)):
+        r_ = rnd if ci % 2 == 0 else rnd_s
+        u = 2.0 ** -40
+        pert = lambda: r_.choice([0, 0, 1, -1, 3, 2 ** 6, -2 ** 9, 2 ** 13, -2 ** 11, 2 ** 10]) * u
+        n1, n2 = r_.randint(2, 6), r_.randint(3, 8)
+        base1 = sorted(set(r_.randint(0, 40) for _ in range(n1)))
+        base2 = sorted(set(r_.randint(0, 40) for _ in range(n2)))
+        shape = ci % 4
+        if shape == 0:            # candidates on both sides at distances d and d(1 +- tiny): the nearer must win, not the first
+            s1 = [b_ * 0.25 for b_ in base1]
+            s2 = sorted(set(x for b_ in base1 for x in (b_ * 0.25 - 0.125 - abs(pert()), b_ * 0.25 + 0.125 + abs(pert()))))
+            diff = 0.2
+        elif shape == 1:          # distance to the partner is diff(1 -+ tiny): strictly-closer decides
+            s1 = [b_ * 0.25 for b_ in base1]
+            diff = 0.0625
+            s2 = sorted(set(b_ * 0.25 + r_.choice([-1, 1]) * (diff + pert()) for b_ in base1))
+        elif shape == 2:          # nearly identical stamps, tiny diff
+            s1 = [b_ * 0.25 + pert() for b_ in base1]
+            s2 = [b_ * 0.25 + pert() for b_ in base1]
+            diff = r_.choice([2 ** 6, 2 ** 10, 2 ** 13, 3]) * u
+        else:
+            s1 = [b_ * 0.25 + pert() for b_ in base1]
+            s2 = [b_ * 0.25 + pert() for b_ in base2]
+            diff = 0.125 + pert()
+        off = r_.choice([0.0, 0.0, 0.25, -0.5])
+        s2 = [x - off for x in s2]
+        if sorted(s1) != s1 or sorted(s2) != s2 or len(s1) < 1 or len(s2) < 1:
+            continue
+        c = {"kind": "band36", "what": "stamps", "s1": s1, "s2": s2, "diff": diff, "offset": off}
+        ctx.note_case(("pass5", "band36", "stamps", json_sig(c)), True)
+        ctx.count("band36.stamps")
+        try:
+            mi = A.matching_time_indices(torch.tensor(s1, dtype=torch.float64), torch.tensor(s2, dtype=torch.float64), diff, off)
+            got = [x for p_ in zip(mi[0], mi[1]) for x in p_]
+            want, _ = R.match_oracle(s1, s2, diff, off)
+            wflat = [x for p_ in want for x in p_]
+            if got != wflat:
+                ctx.fail(c, f"band36: matching_time_indices gives {got} on stamps that differ by 1e-12…1e-8; nearest stamp strictly closer than diff gives {wflat}")
+
+            def cbt(rep, got=got, c=c):
+                st_, toks = common.parse_reply(rep)
+                if st_ != "ok" or [int(t) for t in toks] != got:
+                    ctx.disagree("match", c, f"nearly tied stamps: implementation {got} model {rep[:60]}")
+            mb.add(f"c19.match {to_wire(diff)} {to_wire(off)} {len(s1)} {wire_list(s1)} {len(s2)} {wire_list(s2)}", cbt)
+        except Exception as e:
+            ctx.fail(c, f"band36-raises: matching_time_indices raised: {excs(e)}")
+    # stamps that decrease by a tiny amount must be refused like any non-ascending stamps; equal stamps are accepted
+    for ti, (st_, okay) in enumerate([([0.0, 1.0, 1.0 - 2.0 ** -40, 2.0], False), ([0.0, 1.0, 1.0, 2.0], True), ([0.0, 1.0, 1.0 + 2.0 ** -40, 2.0], True),
+                                      ([1e9, 1e9 + 1.0, 1e9 + 1.0 - 2.0 ** -20, 1e9 + 2.0], False)]):
+        c = {"kind": "band36", "what": "ascending stamps", "stamps": st_}
+        ctx.note_case(("pass5", "band36", "ascending", ti), True)
+        ctx.count("band36.ascending")
+        X4 = rand_poses_t(g, (4,))
+        try:
+            quiet(lambda: A.ape(tens(st_), P.SE3(X4), tens(st_), P.SE3(X4)))
+            if not okay:
+                ctx.fail(c, f"band36: stamps {st_} (decreasing by a tiny amount) were accepted; non-ascending stamps are documented to be refused")
+        except Exception as e:
+            if okay:
+                ctx.fail(c, f"band36-raises: ascending stamps {st_} were refused: {excs(e)}")
+    # (b) distance pairing with path lengths delta(1 -+ tiny) and tolerances tol(1 -+ tiny)
+    for ci in range(ctx.pick(40, 300)):
+        r_ = rnd if ci % 2 == 0 else rnd_s
+        eta = r_.choice([2.0 ** -30, 2.0 ** -34, 1e-9, 1e-7, 2.0 ** -24])
+        L = r_.randint(4, 9)
+        xs = [0.0]
+        for _ in range(L - 1):
+            xs.append(xs[-1] + r_.choice([1.0, 1.0 - eta, 1.0 + eta, 2.0 - eta, 2.0 + 3 * eta, 0.5, 1.0 - 2 * eta]))
+        axis = r_.choice([(1.0, 0.0, 0.0), (0.0, 1.0, 0.0), (0.6, 0.8, 0.0)])
+        lat = np.array([[x * axis[0], x * axis[1], x * axis[2]] + ident for x in xs])
+        delta = r_.choice([1.0, 2.0, 3.0])
+        rtol = r_.choice([0.0, 0.5 * eta, 1.5 * eta, 2.5 * eta, 0.1])
+        all_ = r_.random() < 0.6
+        want, margin = R.pairs_dist_oracle(lat[:, :3], delta, delta * rtol, all_)
+        if margin < 1e-13:
+            ctx.count("band36.pairs-skip-exact-tie")
+            continue
+        c = {"kind": "band36", "what": "distance pairing", "x": xs, "axis": list(axis), "delta": delta, "rtol": rtol, "all": all_}
+        ctx.note_case(("pass5", "band36", "pairs", json_sig(c)), True)
+        ctx.count("band36.pairs")
+        try:
+            gp = quiet(lambda: A.pair_id(A.StampedSE3(None, P.SE3(torch.tensor(lat))), delta, "distance", rtol, all_))
+            got = list(zip([int(x) for x in gp[0]], [int(x) for x in gp[1]]))
+            if got != want:
+                ctx.fail(c, f"band36: pair_id(distance, delta={delta}, rtol={rtol}, all={all_}) gives {got} on path lengths within {eta:.1e} of delta; the documented rule gives {want}")
+            flat = [x for p_ in got for x in p_]
+
+            def cbp(rep, flat=flat, c=c):
+                st_, toks = common.parse_reply(rep)
+                w = [int(t) for t in toks] if st_ == "ok" else None
+                if w != flat:
+                    ctx.disagree("pairs", c, f"nearly tied distances: pair_id gives {flat}, the model {w}")
+            mb.add(f"c19.pairs 1 {int(delta)} {to_wire(delta)} {to_wire(rtol)} {1 if all_ else 0} {len(lat)} " + wire_list(lat.flatten().tolist()), cbp)
+        except Exception as e:
+            ctx.fail(c, f"band36-raises: pair_id raised: {excs(e)}")
+    # (c) nearly equal rotations / poses: the loss and the errors must be the tiny angle / distance, not 0 and not clamped
+    for dtype in ("float64",):
+        angs = [10.0 ** e_ for e_ in (-13, -12, -11, -10, -9, -8, -7, -6, -5, -4)] + [3e-9, 7e-6, 2e-5]
+        qa = rand_unit_quats(g, len(angs)).numpy()
+        rel = np.stack([R.so3_exp(R.rand_unit(rnd) * a_) for a_ in angs])
+        qb = R.qnormalize(R.qmul(qa, rel))
+        c = {"kind": "band36", "what": "nearly equal rotations", "dtype": dtype}
+        ctx.note_case(("pass5", "band36", "geo"), True)
+        ctx.count("band36.geo")
+        try:
+            got = P.geodesic_loss(P.SO3(torch.tensor(qa)), P.SO3(torch.tensor(qb)), reduction="none").numpy()
+            want = R.qangle(R.qmul(qa, R.qconj(qb)))
+            e = np.abs(got - want)
+            if not bool((e <= 24 * EPS64 + 1e-6 * want).all()):
+                j = int((e - 1e-6 * want).argmax())
+                ctx.fail(c | {"angle": angs[j]}, f"band36: geodesic_loss of two rotations {angs[j]:.1e} rad apart is {got[j]!r}, the angle is {want[j]!r}")
+            for rd, ref in (("sum", want.sum()), ("mean", want.mean())):
+                r__ = float(P.geodesic_loss(P.SO3(torch.tensor(qa)), P.SO3(torch.tensor(qb)), reduction=rd))
+                if not abs(r__ - ref) <= 64 * EPS64 + 1e-6 * ref:
+                    ctx.fail(c | {"reduction": rd}, f"band36: geodesic_loss(reduction={rd!r}) over nearly equal rotations is {r__!r}, documented {float(ref)!r}")
+            # the same tiny motions as pose errors of ape / rpe (radian, translation, pose) at translation scale 1
+            refp = rand_poses_t(g, (len(angs),)).numpy()
+            dts = np.stack([R.rand_unit(rnd) * a_ for a_ in angs])
+            estp = np.stack([R.se3_vec(R.se3_mul((p_[:3], p_[3:]), (dt_, q_))) for p_, dt_, q_ in zip(refp, dts, rel)])
+            for et in ETYPES:
+                for mode in ("none", "origin"):
+                    res = quiet(lambda: A.ape(None, se3t(refp), None, se3t(estp), etype=et, **MODES[mode]))
+                    ea = estp if mode == "none" else R.left_mul(R.se3_mul((refp[0, :3], refp[0, 3:]), R.se3_inv((estp[0, :3], estp[0, 3:]))), estp)
+                    errs = np_rel_errors(et, refp, ea, False)
+                    want_s = np_stats(errs)
+                    v = stat_vals(res)
+                    tau = err_tol(et, 3.0) * (16 if mode == "origin" else 1)
+                    bad = stats_close(v, want_s, tau, len(angs))
+                    ctx.count("band36.ape")
+                    if bad:
+                        ctx.fail(c | {"etype": et, "mode": mode}, f"band36: ape(etype={et}, mode={mode}) over pose errors of 1e-13…1e-4: {bad} = {v[STAT_KEYS.index(bad)]!r}, documented {want_s[STAT_KEYS.index(bad)]!r}")
+                    if mode == "none" and et in ("translation", "radian") and not (v[1] > 0 and abs(v[1] - want_s[1]) <= 1e-3 * want_s[1] + (0 if et == "translation" else 256 * EPS64)):
+                        ctx.fail(c | {"etype": et}, f"band36: the smallest {et} error (a 1e-13 motion) is reported as {v[1]!r}, documented {want_s[1]!r}")
+        except Exception as e:
+            ctx.fail(c, f"band36-raises: nearly equal rotations raised: {excs(e)}")
+    lap("band36")
+    # ------------------------------------------------------------ class 32: every other public operation between two identical calls
+    Xi = rand_poses_t(g, (9,))
+    Yi = torch.tensor(R.walk(random.Random(5), 9, 1.0, 0.4), dtype=torch.float64)
+    pts_i = torch.randn(2, 6, 3, generator=g, dtype=torch.float64)
+    st9 = torch.arange(9, dtype=torch.float64) * 0.1
+    geo_fixed = {(tn, dn): (lie_rand(P, g, tn, (4,), DT[dn]), lie_rand(P, g, tn, (4,), DT[dn])) for tn in GEO_TYPES for dn in ("float64", "float32")}
+
+    def subjects():
+        out = {}
+        for dn in ("float64", "float32"):
+            D_ = DT[dn]
+            out[f"chspline/{dn}"] = P.chspline(pts_i.to(D_), 0.3)
+            out[f"bspline/{dn}"] = P.bspline(lt(Yi.to(D_)), 0.3).tensor()
+            out[f"bspline(extrapolate)/{dn}"] = P.bspline(lt(Yi.to(D_)[:3]), 0.3, extrapolate=True).tensor()
+            out[f"SE3.matrix/{dn}"] = lt(Yi.to(D_)).matrix()
+            for tn in GEO_TYPES:
+                a_, b_ = geo_fixed[(tn, dn)]
+                out[f"geodesic_loss({tn})/{dn}"] = P.geodesic_loss(a_, b_, reduction="none")
+            for mode in ("none", "origin", "align", "align+scale"):
+                for et in ("translation", "pose", "radian"):
+                    out[f"ape({mode},{et})/{dn}"] = A.ape(st9, lt(Xi.to(D_)), st9, lt(Yi.to(D_)), etype=et, **MODES[mode])
+                out[f"rpe({mode})/{dn}"] = A.rpe(st9, lt(Xi.to(D_)), st9, lt(Yi.to(D_)), etype="pose", all=True, **MODES[mode])
+        return out
+    try:
+        first = quiet(subjects)
+        # the first results against the documented values (the battery below must not be what makes them right or wrong)
+        w0 = np_stats(np_rel_errors("pose", Xi.numpy(), Yi.numpy(), False))
+        if stats_close(stat_vals(first["ape(none,pose)/float64"]), w0, err_tol("pose", 3.0) * 8, 9):
+            ctx.fail({"kind": "interleave", "fn": "ape"}, "interleave: ape(pose) differs from the documented error before any other operation was called")
+        rounds = [((), (1,), (3,))] if quick else [((), (1,), (1, 1), (3,), (2, 1)), ((1,), ())]
+        for ri, shapes in enumerate(rounds):
+            lie_battery(ctx, P, g, shapes)
+            second = quiet(subjects)
+            for nm in first:
+                c = {"kind": "interleave", "fn": nm, "round": ri}
+                ctx.note_case(("pass5", "interleave", nm, ri), True)
+                ctx.count("interleave")
+                if not bits_eq(first[nm], second[nm]):
+                    ctx.fail(c, f"interleave: {nm} returns other values after unrelated public LieTensor operations (forward/backward, single items and "
+                                f"batches, float32 and float64) were called in the same process")
+        w1 = np_stats(np_rel_errors("pose", Xi.numpy(), Yi.numpy(), False))
+        sec = quiet(lambda: A.ape(st9, lt(Xi), st9, lt(Yi), etype="pose"))
+        if stats_close(stat_vals(sec), w1, err_tol("pose", 3.0) * 8, 9):
+            ctx.fail({"kind": "interleave", "fn": "ape"}, "interleave: ape(pose) differs from the documented error after the other operations were called")
+        M4 = lt(Yi[:2]).matrix()
+        if not bool(((M4[..., 3, :] - torch.tensor([0.0, 0, 0, 1.0], dtype=torch.float64)).abs() == 0).all()) or \
+                not bool(((M4[..., :3, 3] - Yi[:2, :3]).abs() <= 8 * EPS64 * (1 + Yi[:2, :3].abs())).all()):
+            ctx.fail({"kind": "interleave", "fn": "SE3.matrix"}, "interleave: SE3.matrix() (used by ape/rpe) no longer has last row (0,0,0,1) / the translation column after the other operations")
+    except Exception as e:
+        ctx.fail({"kind": "interleave"}, f"interleave-raises: {excs(e)}")
+    lap("interleave")
+    # ------------------------------------------------------------ class 29: several objects / calls with the optional argument OMITTED
+    try:
+        qa_, qb_ = rand_unit_quats(g, 5), rand_unit_quats(g, 5)
+        ang = R.qangle(R.qmul(qa_.numpy(), R.qconj(qb_.numpy())))
+        GL = P.module.GeodesicLoss
+        objs = [("mean", GL()), ("sum", GL("sum")), ("mean", GL()), ("none", GL(reduction="none")), ("mean", GL()), ("sum", GL(reduction="sum")), ("mean", GL())]
+        order = [0, 1, 2, 3, 4, 5, 6, 0, 3, 2, 1, 6, 4]
+        for oi in order:
+            rd, ob = objs[oi]
+            v = ob(P.SO3(qa_), P.SO3(qb_))
+            want = {"mean": ang.mean(), "sum": ang.sum(), "none": ang}[rd]
+            c = {"kind": "defaults29", "fn": "GeodesicLoss", "object": oi, "documented_reduction": rd}
+            ctx.note_case(("pass5", "defaults29", "GeodesicLoss", oi), True)
+            ctx.count("defaults29")
+            if tuple(v.shape) != (() if rd != "none" else (5,)) or not bool(np.all(np.abs(v.numpy() - want) <= 64 * EPS64 * 4)):
+                ctx.fail(c, f"defaults29: GeodesicLoss object #{oi} built with reduction {'omitted' if rd == 'mean' and oi in (0, 2, 4, 6) else repr(rd)} returns "
+                            f"{v.tolist()!r}; documented ({rd}) {np.asarray(want).tolist()!r}")
+        # functions: omitted interval / extrapolate / etype / diff / offset / align / delta … after calls with other explicit values
+        ptsd = torch.randn(5, 2, generator=g, dtype=torch.float64)
+        Xd = torch.tensor(R.walk(random.Random(11), 7, 1.0, 0.4), dtype=torch.float64)
+        Yd = torch.tensor(R.walk(random.Random(12), 7, 1.0, 0.4), dtype=torch.float64)
+        std_ = torch.arange(7, dtype=torch.float64)
+        def_calls = {
+            "chspline(points)": (lambda: P.chspline(ptsd), lambda: P.chspline(ptsd, 0.1), lambda: P.chspline(ptsd, 0.37)),
+            "bspline(data)": (lambda: P.bspline(lt(Xd)).tensor(), lambda: P.bspline(lt(Xd), 0.1, False).tensor(), lambda: P.bspline(lt(Xd), 0.4, True).tensor()),
+            "geodesic_loss(x, y)": (lambda: P.geodesic_loss(P.SO3(qa_), P.SO3(qb_)), lambda: P.geodesic_loss(P.SO3(qa_), P.SO3(qb_), "mean"),
+                                    lambda: P.geodesic_loss(P.SO3(qa_), P.SO3(qb_), "sum")),
+            "ape(defaults)": (lambda: A.ape(std_, lt(Xd), std_, lt(Yd)),
+                              lambda: A.ape(std_, lt(Xd), std_, lt(Yd), "translation", 0.01, 0.0, False, False, -1, False, 0.3, "All"),
+                              lambda: A.ape(std_, lt(Xd), std_ + 1.0, lt(Yd), "pose", 0.5, -1.0, True, True, -1, False, 0.1, "Max")),
+            "rpe(defaults)": (lambda: A.rpe(std_, lt(Xd), std_, lt(Yd)),
+                              lambda: A.rpe(std_, lt(Xd), std_, lt(Yd), "translation", 0.01, 0.0, False, False, -1, False, "frame", 1.0, 0.1, False, 0.3, False, "All"),
+                              lambda: A.rpe(std_, lt(Xd), std_ + 1.0, lt(Yd), "radian", 0.5, -1.0, True, True, -1, False, "distance", 2.0, 0.5, True, 0.1, True, "Max")),
+        }
+        for nm, (omitted, explicit, other) in def_calls.items():
+            ref = quiet(explicit)
+            for k_ in range(3):
+                c = {"kind": "defaults29", "fn": nm, "round": k_}
+                ctx.note_case(("pass5", "defaults29", nm, k_), True)
+                ctx.count("defaults29")
+                quiet(other)
+                got = quiet(omitted)
+                if not bits_eq(got, ref):
+                    ctx.fail(c, f"defaults29: {nm} with the optional arguments omitted differs from the call with the documented defaults passed explicitly "
+                                f"(after a call with other explicit values)")
+        if tuple(quiet(def_calls["chspline(points)"][0]).shape) != (41, 2) or tuple(quiet(def_calls["bspline(data)"][0]).shape) != (41, 7):
+            ctx.fail({"kind": "defaults29", "fn": "spline counts"}, "defaults29: the default interval 0.1 must give 10 samples per segment (41 points / poses)")
+        wa = np_stats(np_rel_errors("translation", Xd.numpy(), Yd.numpy(), False))
+        if stats_close(stat_vals(quiet(def_calls["ape(defaults)"][0])), wa, err_tol("translation", 6.0) * 8, 7):
+            ctx.fail({"kind": "defaults29", "fn": "ape(defaults)"}, "defaults29: ape with defaults is not the translation error without alignment")
+        # several StampedSE3 with the stamps omitted: each gets 0..n-1 of its own length
+        for n_ in (9, 4, 6, 4):
+            s_ = A.StampedSE3(None, P.SE3(rand_poses_t(g, (n_,))))
+            ctx.count("defaults29")
+            if s_.timestamps.tolist() != [float(i) for i in range(n_)] or s_.poses.dtype != torch.float64:
+                ctx.fail({"kind": "defaults29", "fn": "StampedSE3", "n": n_}, f"defaults29: StampedSE3 without stamps over {n_} poses has stamps {s_.timestamps.tolist()}")
+    except Exception as e:
+        ctx.fail({"kind": "defaults29"}, f"defaults29-raises: {excs(e)}")
+    lap("defaults29")
+    # ------------------------------------------------------------ class 30: every dtype the entry points accept
+    HALF = {"float16": (torch.float16, 2.0 ** -10), "bfloat16": (torch.bfloat16, 2.0 ** -7)}
+    for dn, (D_, eh) in HALF.items():
+        c = {"kind": "dtypes30", "dtype": dn}
+        try:
+            ptsh = (torch.randn(3, 5, 2, generator=g, dtype=torch.float64)).to(D_)
+            o = P.chspline(ptsh, 0.25)
+            o64 = P.chspline(ptsh.double(), 0.25)
+            ctx.note_case(("pass5", "dtypes30", dn, "chspline"), True)
+            ctx.count("dtypes30")
+            if o.dtype != D_ or o.shape != o64.shape:
+                ctx.fail(c | {"fn": "chspline"}, f"dtypes30: chspline with {dn} points returns {o.dtype} {tuple(o.shape)}; documented: the dtype of the points, shape {tuple(o64.shape)}")
+            elif not bool(((o.double() - o64).abs() <= 24 * eh * (1 + ptsh.double().abs().max())).all()) or \
+                    not bool(((o[..., ::4, :].double() - ptsh.double()).abs() <= 4 * eh * (1 + ptsh.double().abs())).all()):
+                ctx.fail(c | {"fn": "chspline"}, f"dtypes30: chspline with {dn} points is off by {float((o.double() - o64).abs().max()):.3e} from the spline of the same points in float64")
+            Xh = torch.tensor(R.walk(random.Random(21), 6, 1.0, 0.3), dtype=torch.float64).to(D_)
+            for ex in (False, True):
+                o = P.bspline(lt(Xh), 0.5, extrapolate=ex)
+                X64 = Xh.double()
+                X64 = torch.cat([X64[:, :3], X64[:, 3:] / X64[:, 3:].norm(dim=-1, keepdim=True)], -1)
+                o64 = P.bspline(lt(X64), 0.5, extrapolate=ex).tensor()
+                ctx.note_case(("pass5", "dtypes30", dn, "bspline", ex), True)
+                ctx.count("dtypes30")
+                if o.dtype != D_ or o.ltype != P.SE3_type or o.shape != o64.shape:
+                    ctx.fail(c | {"fn": "bspline", "extrapolate": ex}, f"dtypes30: bspline with {dn} poses returns {o.dtype} {o.ltype} {tuple(o.shape)}")
+                else:
+                    on = o.tensor().double().numpy()
+                    fin = np.isfinite(on).all(-1)
+                    if not fin.all():             # scope rule: float16 loses (theta - sin theta)/theta^3 to underflow on the unchanged tree (observation, see notes)
+                        ctx.count(f"dtypes30.observation.{dn}-bspline-nan-samples")
+                    if dn != "float16" and not fin.all():
+                        ctx.fail(c | {"fn": "bspline", "extrapolate": ex}, f"dtypes30: bspline with {dn} poses returns non-finite samples")
+                    dq, dt_ = R.pose_dist(on[fin], o64.numpy()[fin]) if fin.any() else (np.zeros(1), np.zeros(1))
+                    if not (dq.max() <= 48 * eh and dt_.max() <= 48 * eh * 4):
+                        ctx.fail(c | {"fn": "bspline", "extrapolate": ex}, f"dtypes30: bspline with {dn} poses is off by {dq.max():.3e} (rotation) / {dt_.max():.3e} (translation) from the float64 spline of the same poses")
+            qh, qh2 = rand_unit_quats(g, 6).to(D_), rand_unit_quats(g, 6).to(D_)
+            o = P.geodesic_loss(P.SO3(qh), P.SO3(qh2), reduction="none")
+            n1, n2 = qh.double().numpy(), qh2.double().numpy()
+            want = R.qangle(R.qnormalize(R.qmul(R.qnormalize(n1), R.qconj(R.qnormalize(n2)))))
+            ctx.note_case(("pass5", "dtypes30", dn, "geodesic"), True)
+            ctx.count("dtypes30")
+            if o.dtype != D_ or not bool((np.abs(o.double().numpy() - want) <= 48 * eh).all()):
+                ctx.fail(c | {"fn": "geodesic_loss"}, f"dtypes30: geodesic_loss with {dn} rotations returns {o.dtype}, off by {np.abs(o.double().numpy() - want).max():.3e}")
+            for fn_, kw in ((A.ape, dict(etype="pose", align=True)), (A.ape, dict(etype="radian", origin=True)), (A.rpe, dict(etype="rotation", all=True)),
+                            (A.rpe, dict(etype="translation", associate="distance", delta=1.5, rtol=0.9, all=True))):
+                Yh = torch.tensor(R.walk(random.Random(22), 6, 1.0, 0.3), dtype=torch.float64).to(D_)
+                st6_ = torch.arange(6, dtype=torch.float64)
+                r_h = quiet(lambda: fn_(st6_, lt(Xh), st6_, lt(Yh), **kw))
+                r_d = quiet(lambda: fn_(st6_, lt(Xh.double()), st6_, lt(Yh.double()), **kw))
+                ctx.note_case(("pass5", "dtypes30", dn, fn_.__name__, str(kw)), True)
+                ctx.count("dtypes30")
+                if not bits_eq(r_h, r_d):
+                    ctx.fail(c | {"fn": fn_.__name__, "kwargs": str(kw)}, f"dtypes30: {fn_.__name__}({kw}) with {dn} poses differs from the call with the same poses converted to float64 "
+                                                                          f"(documented: computed in float64) or is not float64")
+        except Exception as e:
+            ctx.fail(c, f"dtypes30-raises: {dn} operands raised {excs(e)}")
+    Xs_, Ys_ = rand_poses_t(g, (6,)), rand_poses_t(g, (6,))
+    for sdt in (torch.int64, torch.int32, torch.int16, torch.int8, torch.uint8, torch.float32, torch.float16):
+        for base_, step_ in ((0, 1), (3, 7), (100, 3)):
+            st_i = (torch.arange(6) * step_ + base_).to(sdt)
+            c = {"kind": "dtypes30", "what": "stamps", "dtype": str(sdt), "first": base_, "step": step_}
+            ctx.note_case(("pass5", "dtypes30", "stamps", str(sdt), base_), True)
+            ctx.count("dtypes30")
+            try:
+                for fn_, kw in ((A.ape, dict(etype="pose", diff=0.5)), (A.rpe, dict(etype="radian", diff=0.5, all=True))):
+                    r_i = quiet(lambda: fn_(st_i, P.SE3(Xs_), st_i, P.SE3(Ys_), **kw))
+                    r_f = quiet(lambda: fn_(st_i.double(), P.SE3(Xs_), st_i.double(), P.SE3(Ys_), **kw))
+                    r_n = quiet(lambda: fn_(None, P.SE3(Xs_), None, P.SE3(Ys_), **kw))
+                    if not (bits_eq(r_i, r_f) and bits_eq(r_i, r_n)):
+                        ctx.fail(c | {"fn": fn_.__name__}, f"dtypes30: {fn_.__name__} with {sdt} stamps {st_i.tolist()} differs from the call with the same stamps in float64 / with index stamps")
+            except Exception as e:
+                ctx.fail(c, f"dtypes30-raises: {sdt} stamps raised {excs(e)}")
+    for idt in (torch.int64, torch.int32, torch.int16, torch.int8, torch.uint8, torch.bool):      # scope rule: integer points are refused on the clean tree
+        try:
+            o = P.chspline((torch.arange(15).reshape(5, 3) % 7).to(idt), 0.25)
+            ctx.count("dtypes30.observation.integer-points-accepted")
+            if o.is_floating_point() and o.shape == (17, 3) and not bool(((o[::4] - (torch.arange(15).reshape(5, 3) % 7).to(o.dtype)).abs() <= 1e-5).all()):
+                ctx.fail({"kind": "dtypes30", "fn": "chspline", "dtype": str(idt)}, f"dtypes30: chspline accepted {idt} points and does not interpolate them")
+        except Exception:
+            ctx.count("dtypes30.observation.integer-points-refused")
+    lap("dtypes30")
+    # ------------------------------------------------------------ class 34: sizes beyond 2^18 for the point-wise entry points
+    big = [2 ** 18 + 37] + ([] if quick else [2 ** 18 + 1, 2 ** 20 + 1])
+    for n in big:
+        tails = sorted({n % (2 ** k_) for k_ in ((5, 18) if quick else (5, 8, 12, 16, 18, 20)) if 0 < n % (2 ** k_) < n})
+        c = {"kind": "huge34", "n": n}
+        try:
+            qa_, qb_ = rand_unit_quats(g, n), rand_unit_quats(g, n)
+            out = P.geodesic_loss(P.SO3(qa_), P.SO3(qb_), reduction="none")
+            want = R.qangle(R.qmul(qa_.numpy(), R.qconj(qb_.numpy())))
+            e = np.abs(out.numpy() - want)
+            ctx.note_case(("pass5", "huge34", "geodesic", n), True)
+            ctx.count("huge34")
+            if out.shape != (n,) or not e.max() <= 24 * EPS64:
+                j = int(e.argmax())
+                ctx.fail(c | {"fn": "geodesic_loss", "item": j, "from_end": n - j}, f"huge34: geodesic_loss item {j} of {n} (the {n - j}-th from the end) is off by {e.max():.3e}")
+            for t_ in tails:
+                if not same_bits(out[n - t_:], P.geodesic_loss(P.SO3(qa_[n - t_:]), P.SO3(qb_[n - t_:]), reduction="none")):
+                    ctx.fail(c | {"fn": "geodesic_loss", "tail": t_}, f"huge34: the last {t_} of {n} geodesic losses differ from the call on those items alone")
+            for rd, ref in (("sum", want.sum()), ("mean", want.mean())):
+                r__ = float(P.geodesic_loss(P.SO3(qa_), P.SO3(qb_), reduction=rd))
+                if not abs(r__ - ref) <= 64 * EPS64 * abs(ref) * 20:
+                    ctx.fail(c | {"fn": "geodesic_loss", "reduction": rd}, f"huge34: reduction={rd!r} over {n} items gives {r__!r}, the items give {float(ref)!r}")
+            # chspline: a batch of n sequences and one sequence of n points
+            ptsb = torch.randn(n, 4, 2, generator=g, dtype=torch.float64)
+            out = P.chspline(ptsb, 0.4)
+            ctx.note_case(("pass5", "huge34", "chspline", n), True)
+            ctx.count("huge34")
+            if out.shape != (n, 10, 2) or not bool(((out[:, ::3, :] - ptsb).abs() <= 16 * EPS64 * (1 + ptsb.abs())).all()):
+                ctx.fail(c | {"fn": "chspline(batch)"}, f"huge34: chspline on a batch of {n} sequences does not interpolate every item")
+            for t_ in tails:
+                if not same_bits(out[n - t_:], P.chspline(ptsb[n - t_:].clone(), 0.4)):
+                    ctx.fail(c | {"fn": "chspline(batch)", "tail": t_}, f"huge34: the last {t_} of {n} chspline items differ from the call on those items alone")
+            ptsl = torch.randn(n, 2, generator=g, dtype=torch.float64)
+            out = P.chspline(ptsl, 0.5)
+            ok_shape = out.shape == ((n - 1) * 2 + 1, 2)
+            if not ok_shape or not bool(((out[::2] - ptsl).abs() <= 16 * EPS64 * (1 + ptsl.abs())).all()):
+                ctx.fail(c | {"fn": "chspline(N)"}, f"huge34: chspline through {n} points: {tuple(out.shape)} samples / not interpolating (expected {(n - 1) * 2 + 1})")
+            else:
+                for i in sorted({1, n - 3, n - 38, 2 ** 18 - 1, 2 ** 18, 2 ** 17}):
+                    if 1 <= i <= n - 3:
+                        w = P.chspline(ptsl[i - 1:i + 3].clone(), 0.5)
+                        if not bool(((w[2:5] - out[2 * i:2 * i + 3]).abs() <= 64 * EPS64 * (1 + ptsl[i - 1:i + 3].abs().max())).all()):
+                            ctx.fail(c | {"fn": "chspline(N)", "segment": i}, f"huge34: segment {i} of a chspline through {n} points differs from the spline through its own four points")
+            # the point-wise part of ape / rpe (compute_error) and the index pairing on n poses (the n x n association is not point-wise)
+            rp_, ep_ = rand_poses_t(g, (n,)), rand_poses_t(g, (n,))
+            ep_[n - 1, :3] = rp_[n - 1, :3] + 1e3          # the largest error sits in the LAST item
+            rt, et_ = A.StampedSE3(None, P.SE3(rp_)), A.StampedSE3(None, P.SE3(ep_))
+            for et, mt in ((("translation", "ape"), ("pose", "rpe"), ("radian", "ape")) if quick else
+                           [(a_, b_) for a_ in ("translation", "pose", "radian", "rotation", "degree") for b_ in ("ape", "rpe")]):
+                if True:
+                    res = quiet(lambda: A.compute_error(rt, et_, et, mt, "All"))
+                    errs = np_rel_errors(et, rp_.numpy(), ep_.numpy(), mt == "rpe")
+                    want_s = np_stats(errs)
+                    ctx.note_case(("pass5", "huge34", "compute_error", n, et, mt), True)
+                    ctx.count("huge34")
+                    bad = stats_close(stat_vals(res), want_s, err_tol(et, 1e3) * 8, n)
+                    if bad:
+                        ctx.fail(c | {"fn": "compute_error", "etype": et, "mtype": mt}, f"huge34: {mt} error statistics over {n} poses: {bad} = {float(res[bad])!r}, documented {want_s[STAT_KEYS.index(bad)]!r}")
+            for delta, all_ in ((1.0, True), (3.0, False), (37.0, True), (4096.0, False)):
+                gp = A.pair_id(rt, delta, "frame", 0.1, all_)
+                want = R.pairs_frames_oracle(n, int(delta), all_)
+                ctx.count("huge34")
+                if len(gp[0]) != len(want) or (gp[0][-1], gp[1][-1]) != want[-1] or (gp[0][0], gp[1][0]) != want[0] or \
+                        list(zip(gp[0][-40:], gp[1][-40:])) != want[-40:]:
+                    ctx.fail(c | {"fn": "pair_id", "delta": delta, "all": all_}, f"huge34: pair_id(frame, delta={delta}, all={all_}) over {n} poses: {len(gp[0])} pairs ending "
+                                                                                  f"{(gp[0][-1], gp[1][-1])}, documented {len(want)} pairs ending {want[-1]}")
+            if not quick:
+                # bspline: a batch of n x 4 poses (one segment each) — 2 s per call, thorough tier only
+                Xb = rand_poses_t(g, (n, 4))
+                out = P.bspline(lt(Xb), 0.5).tensor()
+                ctx.note_case(("pass5", "huge34", "bspline", n), True)
+                ctx.count("huge34")
+                if out.shape != (n, 3, 7):
+                    ctx.fail(c | {"fn": "bspline(batch)"}, f"huge34: bspline on a batch of {n} x 4 poses returns shape {tuple(out.shape)}")
+                else:
+                    for t_ in tails[:3] + [1]:
+                        if not same_bits(out[n - t_:], P.bspline(lt(Xb[n - t_:].clone()), 0.5).tensor()):
+                            ctx.fail(c | {"fn": "bspline(batch)", "tail": t_}, f"huge34: the last {t_} of {n} bspline items differ from the call on those items alone")
+                    for j in (0, n // 2, 2 ** 18 - 1, 2 ** 18, n - 1):
+                        if not same_bits(out[j:j + 1], P.bspline(lt(Xb[j:j + 1].clone()), 0.5).tensor()):
+                            ctx.fail(c | {"fn": "bspline(batch)", "item": j}, f"huge34: item {j} of {n} bspline items differs from the call on that item alone")
+            if not quick:
+                Xl_ = rand_poses_t(g, (n,))
+                for ex in (False, True):
+                    out = P.bspline(lt(Xl_), 0.5, extrapolate=ex).tensor()
+                    nseg = n + (1 if ex else -3)
+                    ctx.count("huge34")
+                    if out.shape[0] != nseg * 2 + 1:
+                        ctx.fail(c | {"fn": "bspline(N)", "extrapolate": ex}, f"huge34: bspline through {n} poses returns {out.shape[0]} poses, expected {nseg * 2 + 1}")
+                        continue
+                    off_ = 2 if ex else 0
+                    for i in sorted({0, n - 4, n - 41, 2 ** 18 - 2, 2 ** 18 - 4, 2 ** 17}):
+                        if 0 <= i <= n - 4:
+                            w = P.bspline(lt(Xl_[i:i + 4].clone()), 0.5).tensor()
+                            if not same_bits(w[:2], out[2 * (i + off_):2 * (i + off_) + 2]):
+                                ctx.fail(c | {"fn": "bspline(N)", "segment": i, "extrapolate": ex}, f"huge34: segment {i} of a bspline through {n} poses differs from the spline of its own four control poses")
+        except Exception as e:
+            ctx.fail(c, f"huge34-raises: {excs(e)}")
+    lap("huge34")
+
+
 # ============================================================================= entry points
 
 def run(ctx: Ctx):
@@ -2817,6 +3534,7 @@ def run(ctx: Ctx):
     guard(ctx, {"kind": "views"}, "views", lambda: run_views(ctx))
     guard(ctx, {"kind": "pass2"}, "pass2", lambda: run_pass2(ctx))
     guard(ctx, {"kind": "pass4"}, "pass4", lambda: run_pass4(ctx, mb))
+    guard(ctx, {"kind": "pass5"}, "pass5", lambda: run_pass5(ctx, mb))
     run_chs(ctx, mb, ctx.pick(60, 1000))
     run_bs(ctx, mb, ctx.pick(40, 750))
     run_geo(ctx, mb, ctx.pick(60, 1200))
@@ -2854,6 +3572,8 @@ def replay(ctx: Ctx, case) -> bool:
         run_pass2(ctx)
     elif kind in ("large", "ties", "subclass", "clock", "modecache", "defaultdtype", "signs", "pass4"):
         run_pass4(ctx, mb)
+    elif kind in ("ties35", "band36", "interleave", "defaults29", "dtypes30", "huge34", "pass5"):
+        run_pass5(ctx, mb)
     elif kind in ("stale", "views", "history", "corpus"):
         {"stale": lambda: run_stale(ctx), "views": lambda: run_views(ctx), "history": lambda: run_history(ctx, mb),
          "corpus": lambda: run_corpus(ctx, mb)}[kind]()
